@@ -5,7 +5,7 @@ from oracle_util import *  # noqa
 from protocol import from_real, KEY_IDX
 
 ID = "C09"
-LEAN_MODULE = ["SCoda.Props.C09", "SCoda.Props.Purity", "SCoda.Props.C16b", "SCoda.Props.Strong589", "SCoda.Props.ElemTie"]
+LEAN_MODULE = ["SCoda.Props.C09", "SCoda.Props.Purity", "SCoda.Props.C16b", "SCoda.Props.Strong589", "SCoda.Props.ElemTie", "SCoda.Props.StaticTie", "SCoda.Props.RelTie2"]
 LEVEL = "proof"
 CLAUSES = [
     ("every track gets the same number of bars (one list per input track, all of one positive length); the loop terminates for positive bar lengths",
@@ -39,8 +39,14 @@ CLAUSES = [
      "(or time-signature) changes due at one bar start leave the bar with the first (refuted statements, replayed: known finding D23), and the lag is characterised exactly",
      ["SCoda.Strong589.bar_signature_in", "SCoda.Strong589.bar_key_in", "SCoda.Strong589.bar_sig_partial", "SCoda.Strong589.bar_key_partial", "SCoda.Strong589.bar_key_statement_false",
       "SCoda.Strong589.bar_sig_statement_false", "SCoda.Strong589.bar_key_lag", "SCoda.Strong589.bar_key_caught_up", "SCoda.Strong589.bar_key_two_changes", "SCoda.Strong589.sigsOf_roll", "SCoda.Strong589.keysOf_roll"]),
-    ("TIE BY TRANSLATION: the Bar constructor every bar goes through is the translated bar.py (ElemTie); sequences_split_bars itself stays tied by correspondence",
-     ["SCoda.ElemTie.barInit_eq", "SCoda.ElemTie.barInit_flags"]),
+    ("TIE BY TRANSLATION: Sequence.sequences_split_bars is re-translated statement by statement on every run (Gen/StaticFns.lean: the `while not tracks_synchronised` "
+     "loop with the model's fuel, the signature / key queues consumed by next(...) + pop(0), per-track split, placeholders, optional re-quantisation, Bar construction "
+     "through the translated bar.py) and proved equal to the model `splitBars` the clauses above are about — same exception or same bars — for inputs that can be read, "
+     "whose meta sequence's fresh absolute view agrees with its relative view, and whose signatures have numerator >= 0, denominator > 0 (where Python's "
+     "int(PPQN*(n/(d/4))) is the model's integer bar length); every returned bar has its relative view fresh and its absolute view stale; the inner "
+     "RelativeSequence.split is itself translated and proved (RelTie2)",
+     ["SCoda.StaticTie.sequencesSplitBars_eq", "SCoda.StaticTie.sequencesSplitBars_ofRel", "SCoda.StaticTie.sequencesSplitBars_constructed",
+      "SCoda.StaticTie.seq_split_bars_link", "SCoda.ElemTie.barInit_eq", "SCoda.ElemTie.barInit_flags", "SCoda.RelTie2.split_eq"]),
     ("the input sequences are left unchanged: sequences_split_bars works on private copies and no write site acts on an object that existed "
      "before the call (purity typing over regenerated facts); the bars are fresh (C16b); observed on the real objects by the oracle's `inputs` "
      "clause from five wrapper states",
